@@ -17,7 +17,44 @@ RULE = ("Generated programs with 1-3 choice-domain relations (arity 2-3; single 
         "choice relation >= 2 candidates of T(D) compete for a key; distinct by hash of (program, args, env).")
 
 
+def gen_large(ch):
+    """thousands of candidates on few keys, selected through a constant column (index scan), evaluated in parallel"""
+    import random
+    rng = random.Random(ch.int(0, 1 << 30))    # bulk data only, derived from a generated seed
+    nkeys = ch.choice([50, 200, 500])
+    n = ch.choice([3000, 10000, 30000])
+    src = sorted({(rng.randrange(3), rng.randrange(nkeys), rng.randrange(1000)) for _ in range(n)})
+    P = Program()
+    X, Y, Z = (Var(v, NUMBER) for v in "xyz")
+    e = Rel("src", [NUMBER, NUMBER, NUMBER], "edb")
+    e.facts = src
+    e.from_file = True
+    e.output = False
+    P.add_rel(e)
+    m = Rel("m0", [NUMBER, NUMBER], "idb")
+    m.group = 0
+    m.extra_decl = "choice-domain a0"
+    P.add_rel(m)
+    P.groups.append(["m0"])
+    P.rules.append(Rule(Atom("m0", [X, Y]), [Atom("src", [Const(1, NUMBER), X, Y])]))
+    if ch.bool(0.5):
+        P.rules.append(Rule(Atom("m0", [X, Y]), [Atom("src", [Const(2, NUMBER), X, Y]), Cmp("<", X, Const(nkeys // 3, NUMBER), NUMBER)]))
+    s = Rel("s0", [NUMBER], "idb")
+    s.group = 1
+    P.add_rel(s)
+    P.groups.append(["s0"])
+    P.rules.append(Rule(Atom("s0", [X]), [Atom("m0", [X, Y]), Cmp(">", Y, Const(500, NUMBER), NUMBER)]))
+    for nme in ("m0", "s0"):
+        P.rels[nme].output = True
+    text, facts = dlgen.to_souffle(P)
+    j = ch.choice([4, 8, 16])
+    env = {"SOUFFLE_VERIF_PERTURB": str(ch.int(1, 1 << 20))} if ch.bool(0.6) else {}
+    return {"program": text, "facts": facts, "args": ["-j%d" % j], "env": env, "keys": {"m0": [[0]]}, "_P": P, "large": True}
+
+
 def gen(ch):
+    if ch.bool(0.2):
+        return gen_large(ch)
     P = Program()
     dom = ch.int(3, 7)
     e = Rel("e", [NUMBER, NUMBER], "edb")
@@ -37,15 +74,19 @@ def gen(ch):
         m = Rel("m%d" % i, [NUMBER] * ar, "idb")
         m.group = len(P.groups)
         attrs = m.attrs
-        kind = ch.weighted([(4, "single"), (3, "multi"), (3, "composite")])
+        kind = ch.weighted([(4, "single"), (3, "multi"), (3, "composite"), (3, "subsets")])
         if kind == "single":
             ks = [[ch.int(0, ar - 1)]]
         elif kind == "multi":
             a, b = ch.sample(list(range(ar)), 2)
             ks = [[a], [b]]
-        else:
+        elif kind == "composite":
             a, b = sorted(ch.sample(list(range(ar)), 2))
             ks = [[a, b]] + ([[c for c in range(ar) if c not in (a, b)]] if ar == 3 and ch.bool(0.4) else [])
+        else:
+            # 2-3 arbitrary distinct key sets in arbitrary order (a composite key followed by one of its sub-keys, overlapping keys ...)
+            subsets = [[0], [1], [0, 1]] if ar == 2 else [[0], [1], [2], [0, 1], [0, 2], [1, 2], [0, 1, 2]]
+            ks = ch.sample(subsets, ch.int(2, 3))
         m.extra_decl = "choice-domain " + ", ".join(attrs[kk[0]] if len(kk) == 1 else "(" + ", ".join(attrs[c] for c in kk) + ")" for kk in ks)
         keys[m.name] = ks
         P.add_rel(m)
@@ -109,7 +150,7 @@ def judge(case, st=None):
     P = case.get("_P") or rebuild(case)
     res = runner.run_program(case["program"], case["facts"], args=case["args"], env=case["env"], timeout=60)
     runner.classify_failure(res, "run", {k: v for k, v in case.items() if k != "_P"})
-    pub = {k: v for k, v in case.items() if k != "_P"}
+    pub = {k: (v if k != "facts" or not case.get("large") else {f: x[:2000] + "...(truncated)" for f, x in v.items()}) for k, v in case.items() if k != "_P"}
     try:
         outs = runner.typed_outputs(P, res.outputs)
     except ValueError as ex:
@@ -117,6 +158,9 @@ def judge(case, st=None):
     D = {}
     msgs = []
     for n in P.order:
+        if P.rels[n].kind == "edb" and not P.rels[n].output:
+            D[n] = set(P.rels[n].facts)
+            continue
         got = outs.get(n)
         if got is None:
             raise Violation("no output for %s" % n, {"case": pub})
@@ -135,7 +179,7 @@ def judge(case, st=None):
                     msgs.append("%s is not functional: %r and %r agree on key columns %r" % (mname, seen[key], t, kk))
                     break
                 seen[key] = t
-        ev = dlref.Evaluator(P)
+        ev = dlref.Evaluator(P, dlref.Budget(steps=10**8, tuples=10**7, rounds=500))
         ev.db = {n: set(D[n]) for n in P.order}
         T = set()
         try:
@@ -146,8 +190,9 @@ def judge(case, st=None):
         unsound = sorted(M - T)[:5]
         if unsound:
             msgs.append("%s holds tuples its rules do not derive from the final database: %r" % (mname, unsound))
+        present = [{tuple(m[c] for c in kk) for m in M} for kk in ks]
         for t in sorted(T - M):
-            if not any(any(all(t[c] == m[c] for c in kk) for kk in ks) for m in M):
+            if not any(tuple(t[c] for c in kk) in pk for kk, pk in zip(ks, present)):
                 msgs.append("%s is not maximal: derivable tuple %r is absent although it clashes with no present tuple on any key" % (mname, t))
                 break
         for kk in ks:
@@ -168,7 +213,7 @@ def judge(case, st=None):
         P2.rels[mname] = rel
     P2.groups = [g for g in P.groups if g[0] not in case["keys"]]
     try:
-        db, _ = dlref.evaluate(P2)
+        db, _ = dlref.evaluate(P2, dlref.Budget(steps=10**8, tuples=10**7, rounds=500))
     except OutOfDomain:
         raise Discard("ood")
     for n in P.order:
